@@ -102,7 +102,13 @@ def add_pure_blocks(rnd, root):
             if c.kind in ('lit', 'in') and n.kind in ('bin', 'slist', 'clist', 'pair') and rnd.random() < 0.4:
                 body = rnd.choice([proggen.lit_int(1), proggen.binop('+', proggen.lit_int(1), proggen.lit_int(2)), proggen.lit_text('x')])
                 before = n.kind in ('bin', 'pair') and i == 1 or (n.kind == 'clist' and i >= 1)
-                kids[i] = proggen.Node('sebefore' if (before and rnd.random() < 0.5) else 'seafter', None, [c, body], 'atom')
+                r = rnd.random()
+                if before and r < 0.3:
+                    # a block on both sides of one operand: `[b1] x [b2]`
+                    body2 = rnd.choice([proggen.lit_int(2), proggen.lit_text('y'), proggen.binop('*', proggen.lit_int(2), proggen.lit_int(3))])
+                    kids[i] = proggen.Node('sebefore', None, [proggen.Node('seafter', None, [c, body2], 'atom'), body], 'atom')
+                else:
+                    kids[i] = proggen.Node('sebefore' if (before and r < 0.65) else 'seafter', None, [c, body], 'atom')
             else:
                 go(c)
         if n.kind == 'chain':
